@@ -461,9 +461,25 @@ theorem Cfg.eventDone_le (c : Cfg) (k : List Frame) (r e : Nat) (err : Bool) :
   unfold Cfg.eventDone; (try dsimp only); st_le
 macro_rules | `(tactic| st_le1) => `(tactic| with_reducible exact Cfg.eventDone_le ..)
 
+theorem St.Le.updateRootAll (s : St) : ∀ (fuel : Nat) (todo : List Nat) (root : Nat) (t : St),
+    St.Le s t → St.Le s (St.updateRootAll fuel todo root t) := by
+  intro fuel
+  induction fuel with
+  | zero => intro todo root t h; simpa [St.updateRootAll] using h
+  | succ n ih =>
+    intro todo root t h
+    cases todo with
+    | nil => simpa [St.updateRootAll] using h
+    | cons x rest =>
+      simp only [St.updateRootAll]
+      apply ih
+      st_le
+
 theorem Cfg.updateRoot_le (c : Cfg) (k : List Frame) (todo : List Nat) (root : Nat) :
     St.Le c.st (c.updateRoot k todo root).st := by
-  unfold Cfg.updateRoot; (try dsimp only); st_le
+  unfold Cfg.updateRoot; (try dsimp only)
+  simp only [Cfg.pop_st]
+  exact St.Le.updateRootAll _ _ _ _ _ (St.Le.refl _)
 macro_rules | `(tactic| st_le1) => `(tactic| with_reducible exact Cfg.updateRoot_le ..)
 
 theorem Cfg.register_le (c : Cfg) (k : List Frame) (x p : Nat) :
